@@ -8,6 +8,7 @@ import os
 import shutil
 import subprocess
 import sys
+import threading
 import time
 
 VERIF = os.path.dirname(os.path.dirname(os.path.abspath(__file__)))
@@ -102,7 +103,7 @@ def _prune(dirpath, keep):
     if not os.path.isdir(dirpath):
         return
     for e in os.listdir(dirpath):
-        if e != keep:
+        if e != keep and not e.startswith("."):
             shutil.rmtree(os.path.join(dirpath, e), ignore_errors=True)
 
 
@@ -114,6 +115,19 @@ def build_lib(cfg, extra=(), tag="", pre_inc=()):
     lib = os.path.join(d, "libfm.a")
     if os.path.exists(lib):
         return lib
+    os.makedirs(base, exist_ok=True)
+    import fcntl
+    with open(os.path.join(base, ".lock"), "w") as lockf:
+        fcntl.flock(lockf, fcntl.LOCK_EX)  # several harness builds (threads or processes) may want the same library
+        try:
+            if os.path.exists(lib):
+                return lib
+            return _build_lib_locked(cfg, extra, pre_inc, base, key, d, lib)
+        finally:
+            fcntl.flock(lockf, fcntl.LOCK_UN)
+
+
+def _build_lib_locked(cfg, extra, pre_inc, base, key, d, lib):
     _prune(base, key)
     os.makedirs(d, exist_ok=True)
     srcs = sorted(glob.glob(os.path.join(REPO, "src", "*.cpp")) + glob.glob(os.path.join(REPO, "src", "detail", "*.cpp")))
@@ -133,9 +147,10 @@ def build_lib(cfg, extra=(), tag="", pre_inc=()):
             if rc != 0:
                 raise BuildError(f"library source {s} does not compile in configuration {cfg}:\n{out[-3000:]}")
             objs.append(o)
-    r = sh(["ar", "rcs", lib] + objs)
+    r = sh(["ar", "rcs", lib + ".tmp"] + objs)
     if r.returncode != 0:
         raise BuildError("ar failed: " + r.stdout)
+    os.rename(lib + ".tmp", lib)
     return lib
 
 
@@ -169,7 +184,8 @@ def build_harness(src, cfg, extra=(), libs=(), name=None, link_lib=True, wrap_ab
     os.makedirs(os.path.dirname(exe), exist_ok=True)
     cmd = [CXX, "-std=c++17", opt, "-g", "-w", "-fno-access-control"] + BASE_DEFS + list(extra)
     cmd += inc_flags(cfg, node_sizes_dir or os.path.join(VERIF, "engine", "stub"))
-    cmd += ["-I", VERIF, srcp, "-o", exe + ".tmp"]
+    tmp = exe + f".tmp{os.getpid()}.{threading.get_ident()}"
+    cmd += ["-I", VERIF, srcp, "-o", tmp]
     if link_lib:
         cmd += [build_lib(cfg, extra=lib_extra, tag=lib_tag, pre_inc=lib_pre_inc)]
     if wrap_abort:
@@ -178,7 +194,7 @@ def build_harness(src, cfg, extra=(), libs=(), name=None, link_lib=True, wrap_ab
     r = sh(cmd)
     if r.returncode != 0:
         raise BuildError(f"harness {src} does not compile in configuration {cfg}:\n{r.stdout[-4000:]}")
-    os.rename(exe + ".tmp", exe)
+    os.rename(tmp, exe)
     return exe
 
 
